@@ -1511,8 +1511,34 @@ static void compile_expr(CG *cg, ASTNode *node) {
         break;
 
     case AST_STRING: {
-        uint32_t idx = nvm_add_string(cg->module, node->as.string_val,
-                                       (uint32_t)strlen(node->as.string_val));
+        /* The lexer keeps escape sequences verbatim (the C backend lets the C compiler
+         * interpret them); translate them here so both backends see the same bytes. */
+        const char *raw = node->as.string_val;
+        size_t raw_len = strlen(raw);
+        char *cooked = malloc(raw_len + 1);
+        if (!cooked) { cg_error(cg, node->line, "out of memory"); break; }
+        size_t n = 0;
+        for (size_t i = 0; i < raw_len; i++) {
+            if (raw[i] == '\\' && i + 1 < raw_len) {
+                char e = raw[i + 1];
+                int c = -1;
+                switch (e) {
+                    case 'n': c = '\n'; break;
+                    case 't': c = '\t'; break;
+                    case 'r': c = '\r'; break;
+                    case '0': c = '\0'; break;
+                    case '\\': c = '\\'; break;
+                    case '"': c = '"'; break;
+                    case '\'': c = '\''; break;
+                    default: break;
+                }
+                if (c >= 0) { cooked[n++] = (char)c; i++; continue; }
+            }
+            cooked[n++] = raw[i];
+        }
+        cooked[n] = '\0';
+        uint32_t idx = nvm_add_string(cg->module, cooked, (uint32_t)strlen(cooked));
+        free(cooked);
         emit_op(cg, OP_PUSH_STR, idx);
         break;
     }
